@@ -1080,6 +1080,12 @@ class CellSim(enginemod.Engine):
             'only the first violation of a run is reported',
         ]
 
+    def irrelevant_probes(self, prop):
+        out = set()
+        if prop != 'C02':
+            out |= {'probe_fit', 'probe_nofit', 'probe_not_quiescent'}
+        return out
+
     def quick_runs(self, prop):
         return 9600
 
